@@ -46,13 +46,14 @@ def extra_alphabet(clock, nmax):
     return a
 
 
-def judge(prog, clock, pieces, end=progmc.END):
+def judge(prog, clock, pieces, end=progmc.END, bystander=False):
     """returns (list of disagreements, all_specified)"""
     full = progmc.Ref(prog, end=end).full_trace()
     ref = progmc.RefSim(prog, end=end)
     with common.quiet_stdio():
         try:
-            r = progmc.run_pieces(prog, clock, pieces, end=end)
+            r = progmc.run_pieces(prog, clock, pieces, end=end,
+                                  bystander=bystander)
         except common.HarnessError:
             raise
         except Exception as ex:  # noqa
@@ -64,6 +65,9 @@ def judge(prog, clock, pieces, end=progmc.END):
     bad = []
     allspec = True
     prev_clock = 0.0
+    for tr in r["obs"][-1].get("bystander", ()) if bystander == "run" else ():
+        if tr != full:
+            bad.append(("bystander-run-differs", tr, full))
     for i, (piece, o) in enumerate(zip(pieces, r["obs"])):
         e = ref.cmd(piece)
         if allspec and not e["spec"] and e.get("trace_spec") and \
@@ -157,6 +161,46 @@ def worker(task):
                 viols=[v + (cnt[v[0]],) for v in best.values()])
 
 
+def bystander_worker(task):
+    """every segmentation of depth <= 1 of every <=N-event program again,
+    while after each piece an unrelated simulator is set up (and run) in the
+    same process; plus small bursts"""
+    clock, N, mode = task
+    coopsched.install()
+    n = 0
+    best, cnt = {}, {}
+    cases = []
+    for parents in progmc.gen_shapes(N):
+        k = len(parents)
+        for labs in itertools.product(LABELS, repeat=k):
+            prog = progmc.build(parents, labs, 0)
+            for x in [()] + [(a,) for a in alphabet(clock, k)]:
+                cases.append((prog, list(x), progmc.END, k))
+    for kk in (3, 5):
+        for name, prog, end in progmc.burst_programs(kk):
+            for seg in ([("pause_at", 1)], [("step",)], [("upto", 1)],
+                        [("uptoi", 1), ("step",)]):
+                cases.append((prog, list(seg), end, kk))
+    for prog, seg, end, k in cases:
+        pieces = seg + [("start",), ("start",)]
+        n += 1
+        bad, _ = judge(prog, clock, pieces, end=end, bystander=mode)
+        for b in bad[:1]:
+            sig = "C03:bystander-%s:%s:%s" % (
+                mode, b[0], "+".join(p[0] for p in seg))
+            cnt[sig] = cnt.get(sig, 0) + 1
+            rank = k * 10 + len(seg)
+            if sig not in best or rank < best[sig][3]:
+                rep = {"clock": clock, "pieces": pieces, "end": end,
+                       "bystander": mode,
+                       "program": progmc.prog_to_json(prog)}
+                best[sig] = (sig, "another simulator set up between the "
+                             "pieces (%s): %s: %s" % (mode, rep, b), rep,
+                             rank)
+    return dict(clock=clock, n=n,
+                viols=[v + (cnt[v[0]],) for v in best.values()])
+
+
 def burst_worker(task):
     """bursts of k events at one time / long ladders: a pause at EVERY
     position, single steps up to every position, a bounded run cut at the
@@ -236,6 +280,18 @@ def run(ctx):
              "position, single steps up to every position, bounded runs cut "
              "at the burst" % ks, executed=bn)
     total += bn
+    yn = 0
+    for r in common.pimap(bystander_worker,
+                          [(c, 2 if quick else 3, mode)
+                           for c in ("float", "int", "duration")
+                           for mode in ("init", "run")]):
+        yn += r["n"]
+        for sig, what, rep, rank, count in r["viols"]:
+            ctx.violation(sig, what, rep, rank, count)
+    ctx.part("segmentations of depth <= 1 with an unrelated simulator of the "
+             "same class created, initialised (mode init) and run to its end "
+             "(mode run) after every piece in the same process", executed=yn)
+    total += yn
     ctx.coverage.update(
         evaluations=total, distinct_nontrivial=nspec,
         rule="programs: all handler trees with <=3 events (delays {0,1,2}, "
@@ -265,5 +321,6 @@ def replay(data):
     prog = progmc.prog_from_json(data["program"])
     pieces = [tuple(p) for p in data["pieces"]]
     bad, _ = judge(prog, data["clock"], pieces,
-                   end=data.get("end", progmc.END))
+                   end=data.get("end", progmc.END),
+                   bystander=data.get("bystander", False))
     return bad or None
